@@ -131,6 +131,17 @@ PROPS = {
     ),
 }
 
+# C08 = O1 (overflow freedom of the whole load / walk / decode path: every V obligation of
+# the parse-path properties, Verus checks overflow natively) + O2 (bit validity of
+# enum-typed fields, generated) + O3 (extracted text independent of features / profile).
+PROPS['C08'] = dict(
+    v=[('u_mb2_c08', ['MemoryArea::start_address', 'MemoryArea::end_address', 'MemoryArea::size', 'ModuleTag::start_address',
+                      'ModuleTag::end_address', 'ModuleTag::module_size']),
+       ('u_c08_o2', ['o2_*'])]
+      + [e for pid in ('C01', 'C02', 'C03', 'C05', 'C09', 'C10', 'C14', 'C15', 'C18', 'C19') for e in PROPS[pid]['v']],
+    k_quick=[], k_thorough=[], o3=True,
+)
+
 # ---------------------------------------------------------------------------
 # Registry fragments (engine-K harness tables per area): every harness names the
 # properties it serves (`props`); `tier` = 'thorough' keeps slow ones out of the
